@@ -85,6 +85,8 @@ enum Seg {
     Alt(Vec<String>),
     /// (?: sep (class) )?  : a non-capturing optional section with one group inside
     OptSection(String, Class),
+    /// a zero-width assertion or an end-alternative: (regex source, texts it may stand for in a sample line)
+    Raw(&'static str, &'static [&'static str]),
 }
 
 struct Pattern {
@@ -108,6 +110,7 @@ impl Pattern {
                 Seg::Nested(a, sep, b) => out.push_str(&format!("(({}){}({}))", a.regex(), regex::escape(sep), b.regex())),
                 Seg::Alt(words) => out.push_str(&format!("(?:{})", words.join("|"))),
                 Seg::OptSection(sep, c) => out.push_str(&format!("(?:{}({}))?", regex::escape(sep), c.regex())),
+                Seg::Raw(re, _) => out.push_str(re),
             }
         }
         out
@@ -146,6 +149,7 @@ impl Pattern {
                         out.push_str(&sample(t, *c));
                     }
                 }
+                Seg::Raw(_, texts) => out.push_str(*t.pick(*texts)),
             }
         }
         out
@@ -171,6 +175,19 @@ fn gen_pattern(t: &mut Tape) -> Pattern {
             3 => segs.push(Seg::Alt(vec!["GET".to_string(), "POST".to_string(), "put".to_string()])),
             _ => segs.push(Seg::OptSection(t.pick(&[" x=", "#", " +"]).to_string(), *t.pick(&[Class::Digits, Class::Lower, Class::Decimal]))),
         }
+        // assertions that look at the characters around the match (they need the whole line, not just the matched span)
+        if t.chance(1, 7) {
+            segs.push(t.pick(&[
+                Seg::Raw("\\b", &["", "", "x", "-"]),
+                Seg::Raw("\\B", &["", "ms", "-", "7"]),
+                Seg::Raw("(?:$|,)", &["", ",", ", "]),
+                Seg::Raw("(?:\\b|_)", &["", "_", "z"]),
+                Seg::Raw("\\s*$", &["", " ", "  ", " x"]),
+            ]).clone());
+        }
+    }
+    if t.chance(1, 10) {
+        segs.insert(0, t.pick(&[Seg::Raw("\\b", &["", "x", "["]), Seg::Raw("\\B", &["", "x", "["]), Seg::Raw("(?:^|;)", &["", ";", "; "])]).clone());
     }
     Pattern { segs }
 }
